@@ -1387,7 +1387,7 @@ fn main() {
         } }
         "C04" => c04(&mut out, thorough),
         "C06" => c06(&mut out, thorough),
-        "C07" => c07(&mut out),
+        "C07" => { c07(&mut out); proto::c07_socket(&mut out); }
         "C08" => c08(&mut out),
         "C13" => { c13(&mut out); proto::c13(&mut out); }
         "C15" => { c15(&mut out, thorough); proto::c15(&mut out); proto::c15_public_key(&mut out); }
